@@ -332,6 +332,23 @@ class AcquisitionProbe(Probe):
             if sorted(union) != list(range(per_q[q])):
                 fails.append({'what': 'tags do not partition the qubit indices', 'qubit': q})
                 return fails
+        # position in the exported measurement record (seeded change C07-m8: the exporter re-orders neighbouring measurements of a
+        # layer by qubit index): the measured qubits of the Stim export, in record order, are the listed measurements in order
+        try:
+            from qce_circuit.addon_stim.factory_manager import to_stim as _to_stim
+        except Exception:   # noqa
+            _to_stim = None
+        if _to_stim is not None and ms:
+            try:
+                record = [t.value for ins in _to_stim(circ).flattened() if ins.name in ('M', 'MZ') for t in ins.targets_copy()]
+            except RecursionError:
+                raise
+            except Exception:   # noqa — an export that raises (e.g. a detector looking back too far) is C08's business
+                record = None
+            if record is not None and record != [m.qubit_index for m in ms]:
+                fails.append({'what': 'exported measurement record is not the listed measurements in order',
+                              'record': record[:12], 'listed': [m.qubit_index for m in ms][:12]})
+                return fails
         # time monotonicity: implicitly sequenced and overlap free
         if run.implicit_only and overlap_free(ops):
             for q in per_q:
